@@ -345,6 +345,43 @@ Proof.
     destruct (raises d); discriminate.
 Qed.
 
+(** labelled-unicast / MPLS-VPN NLRI with the label parser bounded to the current NLRI: linear *)
+Lemma label_iters_le d : (label_iters d <= length d)%nat.
+Proof.
+  unfold label_iters.
+  destruct (good_terminates label_stack good_label_stack never d) as (n & Hn & [H|H]); rewrite H; exact Hn.
+Qed.
+
+Lemma lu_total_le a raises d : (lu_total a raises d <= length d)%nat.
+Proof.
+  unfold lu_total. apply total_le.
+  - intros x r E. unfold body in E. cbn [cond consume last bitlen_nlri never] in E.
+    destruct (nonempty x); [|discriminate].
+    destruct (with_path_id a bitlen_elem x) as [n|] eqn:EN; [|discriminate].
+    destruct (raises x); [discriminate|]. inversion E; subst r. clear E.
+    pose proof (label_iters_le (slice (pre a + 1) (pre a + 1 + nlri_octets a x) x)) as Hl.
+    rewrite length_slice in Hl. rewrite length_drop. unfold lu_inner.
+    assert (Hn : n = (pre a + nlri_octets a x + 1)%nat /\ (pre a + 1 <= length x)%nat).
+    { unfold with_path_id, nlri_octets, at_ in *. destruct a;
+        [change (pre true) with 4%nat in * | change (pre false) with 0%nat in *].
+      - unfold shorter in EN. destruct (Nat.ltb_spec (length x) 4); [discriminate|].
+        destruct x as [|x0 [|x1 [|x2 [|x3 t]]]]; cbn [length] in *; try lia.
+        cbn [drop skipn] in EN. unfold bitlen_elem in EN. destruct t as [|l t']; [discriminate|].
+        inversion EN. cbn [nth length]. split; lia.
+      - unfold bitlen_elem in EN. destruct x as [|l t]; [discriminate|]. inversion EN.
+        cbn [nth length]. split; lia. }
+    destruct Hn as [-> Hx]. lia.
+  - intros x E. unfold body in E. cbn [cond consume last bitlen_nlri never] in E.
+    destruct (nonempty x); [|discriminate].
+    destruct (with_path_id a bitlen_elem x); [|discriminate].
+    destruct (raises x); discriminate.
+Qed.
+
+(** ... AS FOUND it is not: 300 zero octets cost 15050 > 50 * 300 iterations *)
+Lemma lu_quadratic_refuted :
+  exists d, length d = 300%nat /\ (50 * length d < lu_total_orig false d)%nat.
+Proof. exists (repeat 0 300). vm_compute. split; [reflexivity|]. apply Nat.leb_le. vm_compute. reflexivity. Qed.
+
 Lemma body_tlv_continue h off w raises d r :
   body (tlv h off w) raises d = Continue r ->
   r = drop (h + N.to_nat (tlv_len off w d)) d /\ (h <= length d)%nat.
